@@ -571,6 +571,7 @@ theorem goDecode_wt (ss : Schemas) (hs : schemasOk ss = true) :
           · simp only [hh, if_false] at hx
             have hrefs := hkind.resolve_left hh
             cases j <;> simp only [] at hx
+            case null => cases hx; exact allnil
             case obj members =>
               split at hx
               · cases hx; exact allnil
